@@ -68,16 +68,16 @@ def best_idx(R, d):
 
 def perturb(rng, cw, sb):
     tags = []
-    base = sb.home
-    tree = ds.read_tree(base)
+    base = sb.root
+    tree = ds.world_tree(sb)
     deployed = sorted(p for p in tree if not ds.is_manifest_name(os.path.basename(p)))
     for p in deployed:
         k = rng.random()
         if k < 0.2: world.write(base + p, b'edited\n'); tags.append('edit')
         elif k < 0.35: os.remove(base + p); tags.append('delete')
-    for p in rng.sample(['/codex_home/prompts/extra1.md', '/codex_home/prompts/deep/dir/extra2.md', '/codex_home/skills/own/SKILL.md',
-                         '/codex_home/skills/s0/added.txt', '/codex_home/top-level.txt', '/.claude/commands/mine.md',
-                         '/codex_home/prompts/.git/config', '/codex_home/skills/.agentpack/meta.json', '/codex_home/prompts/sub/.git/x'],
+    for p in rng.sample(['/home/codex_home/prompts/extra1.md', '/home/codex_home/prompts/deep/dir/extra2.md', '/home/codex_home/skills/own/SKILL.md',
+                         '/home/codex_home/skills/s0/added.txt', '/home/codex_home/top-level.txt', '/home/.claude/commands/mine.md',
+                         '/home/codex_home/prompts/.git/config', '/home/codex_home/skills/.agentpack/meta.json', '/home/codex_home/prompts/sub/.git/x'],
                         rng.randrange(0, 5)):
         world.write(base + p, b'extra\n'); tags.append('add')
     for r in cw.roots(None):
@@ -102,18 +102,18 @@ def run_status_stream(ctx, n):
         sb = Sandbox('c16'); sb.git_init_project()
         try:
             cw = ds.CfgWorld(sb, rng); cw.write()
-            base = sb.home
+            base = sb.root
             for _ in range(rng.randrange(0, 2)):
                 ds.user_edit(rng, cw)
             if rng.random() < 0.9:
                 sb.cli_json(['deploy', '--apply', '--yes', '--adopt'])
             tags = perturb(rng, cw, sb)
-            flt = rng.choice([None, None, 'codex'] + (['claude_code'] if cw.claude else []))
+            flt = rng.choice([None, None, 'codex'] + (['claude_code'] if cw.claude else []) + (['zed'] if cw.zed else []))
             only = rng.choice([None, None, ['extra'], ['modified', 'missing'], ['missing']])
             args = ['status'] + (['--target', flt] if flt else []) + (['--only', ','.join(only)] if only else [])
             rc, doc, out, err = sb.cli_json(args)
             rc0, doc0, _, _ = sb.cli_json(['status'] + (['--target', flt] if flt else [])) if only else (rc, doc, out, err)
-            files = ds.read_tree(base)
+            files = ds.world_tree(sb)
             D = ds.relD(cw.desired(flt), base); R = ds.relR(cw.roots(flt), base)
             ids = ds.Ids()
             rec = {'stream': 'status', 'index': i, 'tags': tags, 'target': flt, 'only': only,
